@@ -114,7 +114,7 @@ def mk_record(c, circular=True, track=None, topo=None):
     la = {"track": list(track)} if track is not None else None
     cls = CircularRecord if circular else SeqRecord
     rid = "r{}".format(c.rid)
-    return cls(Seq(c.seq), id=rid, name=rid, description="d" + rid,
+    return cls(Seq(c.seq), id=rid, name="L" + rid, description="d" + rid,
                features=[mk_feature(f) for f in c.feats], annotations=ann, letter_annotations=la)
 
 
